@@ -328,7 +328,7 @@ func c03Run(c *core.Ctx) {
 	// A. generic: driver-valid corpus programs and their lexeme alternatives
 	level := 2
 	if c.Thorough() {
-		level = 5
+		level = 6
 	}
 	for _, fam := range []string{"php7", "php5"} {
 		f := corpus.MustFam(fam)
